@@ -45,7 +45,6 @@ Print Assumptions C05_models_order.
 (* reader chunk size, text or Parquet with any row-group layout (batch oracle keeping its contract):
    chunked delivery = whole read, with a row index continuing across chunks *)
 Theorem C05_reader_chunk : forall c r cs, 0 < c -> tr_wf c r -> NoDup cs -> incl cs (tr_names r) ->
-  tr_req r cs ->
   exists chs whole, tr_chunks r c (Some cs) = Ok chs /\ tr_read r (Some cs) = Ok whole
     /\ ch_names whole = cs /\ ch_index whole = seq 0 (tr_nrows r) /\ length (ch_rows whole) = tr_nrows r
     /\ tr_chunked c cs (ch_rows whole) chs.
